@@ -27,7 +27,12 @@ RenderableOutcome(o) == \E n \in DOMAIN Renderable : o = "raise:" \o n
 BareOutcomes == {"raise:py:KeyError", "raise:py:AssertionError", "raise:py:ValueError", "raise:py:RuntimeError",
                  "raise:py:Exception", "ret:none", "ret:str", "ret:bytes", "ret:int", "badrender",
                  \* a message that passes the renderer but cannot be serialised (str payload, option value out of range)
-                 "unencodable:payload", "unencodable:option"}
+                 "unencodable:payload", "unencodable:option",
+                 \* an error renderer that returns nothing / something that is no message
+                 "badrender:none", "badrender:nonmessage",
+                 \* library exceptions that are not renderable, and OS-level ones
+                 "raise:lib:ResponseWrappingError", "raise:lib:NetworkError", "raise:lib:LibraryShutdown",
+                 "raise:lib:OSError", "raise:lib:TimeoutError", "raise:lib:ConnectionResetError"}
 
 DefaultCode(method) == IF method \in {1, 5} THEN C(2,5) ELSE IF method = 4 THEN C(2,2) ELSE C(2,4)
 
@@ -50,13 +55,16 @@ FlagIf(o, cond, c) == IF cond THEN Flag(o, c) ELSE o
 ObsRx(o, e) ==
   IF e.cls = "req" /\ e.ty \in {"CON", "NON"}
     THEN [o EXCEPT !.rq = Put(@, <<e.r, e.tok>>, [method |-> e.code, kind |-> e.x, outcome |-> "", n |-> 0,
-                                                 mid |-> -1, dig |-> 0, nr |-> e.nr])]
+                                                 mid |-> -1, dig |-> 0, nr |-> e.nr, dlen |-> -1, dcid |-> -1])]
     ELSE o
 
 ObsCall(o, e) == [o EXCEPT !.inv = Put(@, e.inv, <<e.r, e.tok>>)]
 
+\* (for a renderable error the release event tells the diagnostic text the handler put in: length and identity)
 ObsRelease(o, e) ==
-  IF Has(o.inv, e.inv) /\ Has(o.rq, o.inv[e.inv]) THEN [o EXCEPT !.rq[o.inv[e.inv]].outcome = e.x] ELSE o
+  IF Has(o.inv, e.inv) /\ Has(o.rq, o.inv[e.inv])
+    THEN [o EXCEPT !.rq[o.inv[e.inv]].outcome = e.x, !.rq[o.inv[e.inv]].dlen = e.plen, !.rq[o.inv[e.inv]].dcid = e.cid]
+    ELSE o
 
 ObsTx(o, e) ==
   IF e.cls # "resp" THEN o
@@ -78,7 +86,10 @@ ObsTx(o, e) ==
                      o3 == FlagIf(o2, bare /\ e.plen # 0, "C09_Bare500")
                      o4 == FlagIf(o3, e.leak, "C09_NoExceptionTextLeaks")
                      o5 == FlagIf(o4, s.kind = "" /\ s.outcome = "", "C09_ResponseBeforeOutcome")
-                 IN [o5 EXCEPT !.rq[k].n = @ + 1, !.rq[k].mid = e.mid, !.rq[k].dig = e.dig]
+                     \* "a raised renderable error is sent with its own code and diagnostic payload"
+                     o6 == FlagIf(o5, s.kind = "" /\ RenderableOutcome(s.outcome) /\ s.dlen >= 0
+                                      /\ ~(e.plen = s.dlen /\ e.cid = s.dcid /\ e.cok), "C09_DiagnosticPayload")
+                 IN [o6 EXCEPT !.rq[k].n = @ + 1, !.rq[k].mid = e.mid, !.rq[k].dig = e.dig]
 
 \* exactly one final response per request at quiescence (requests carrying No-Response are C10's)
 ObsEnd(o, e) ==
